@@ -219,6 +219,9 @@ def resolve_smooth(prog, t, stop=(), depth=3):
             if g is None or g.cfg.returns:      # the fall-back closure returns a value: not a refusal
                 return [t]
         return [y for x in resolve_smooth_opt(prog, t[2][0], stop, depth) for y in [x]]
+    if t[0] == "field" and t[2] == "0" and isinstance(t[1], tuple) and t[1] and t[1][0] == "as" and t[1][2] in ("Some", "Ok"):
+        # `match self.try_smooth(..) { Some(x) => x, None => panic!(..) }`
+        return [y for x in resolve_smooth_opt(prog, t[1][1], stop, depth) for y in [x]]
     if mir.is_call(t) and t[1].local and t[1].name not in ("smooth_helper",) + tuple(stop):
         gs = [g for g in prog.resolve(t[1]) if "{closure" not in g.npath]
         if len(gs) == 1 and gs[0].terms.ret is not None:
